@@ -511,6 +511,16 @@ def run(ctx):
     check_uses(ctx, prog)
     check_slot(ctx, prog)
     check_close(ctx, prog)
+    from rules import r3mpitype, r3siblings
+    from callgraph import CallGraph as _CG
+    ctx.rule("R3.mpitype", "an MPI datatype created into a local is released, handed on or stored on every path (MPI calls and "
+             "allocations assumed to succeed), for the functions reachable from the public API")
+    _cg = _CG(prog)
+    _reach = _cg.reach([fn.name for fn in prog.all_functions() if fn.name.startswith("ncmpi_") and not fn.static])
+    r3mpitype.check(ctx, prog, "R3.mpitype", min_functions=12, scope=lambda fn: fn.name in _reach)
+    ctx.rule("R3.siblings", "every site that releases an object held in a longer-lived structure releases the owned parts its "
+             "sibling sites release")
+    r3siblings.check(ctx, prog, "R3.siblings", min_sites=12)
     ctx.rule("R3.destructor", "destructors release each field unconditionally or under that field's own NULL test")
     check_destructors(ctx, prog)
     ctx.rule("R3.emptyfree", "release-on-empty tests observe the count after the removal")
